@@ -302,3 +302,51 @@ func VecQueryParts(t *rapid.T, label string, m *model.Collection, pool []uuid.UU
 	}
 	return
 }
+
+// AnyQuery draws a query of any kind the schema supports: a filter tree, a
+// flat / graph vector search or a text search (ranking leaves may carry a
+// pre-filter).
+func AnyQuery(t *rapid.T, label string, m *model.Collection, pool []uuid.UUID) models.Query {
+	var ranked []string
+	for _, p := range SortedProps(m.Schema) {
+		switch m.Schema[p].Type {
+		case models.IndexTypeVectorFlat, models.IndexTypeVectorVamana, models.IndexTypeText:
+			ranked = append(ranked, p)
+		}
+	}
+	if len(ranked) == 0 || rapid.IntRange(0, 2).Draw(t, label+"-kind") == 0 {
+		return FilterTree(t, label+"-f", m, pool, 2)
+	}
+	prop := rapid.SampledFrom(ranked).Draw(t, label+"-rprop")
+	return RankLeaf(t, label, m, pool, prop)
+}
+
+// RankLeaf draws a ranking leaf (vector or text search) on the given property.
+func RankLeaf(t *rapid.T, label string, m *model.Collection, pool []uuid.UUID, prop string) models.Query {
+	sv := m.Schema[prop]
+	switch sv.Type {
+	case models.IndexTypeText:
+		n := rapid.IntRange(1, 2).Draw(t, label+"-tn")
+		v := ""
+		for i := 0; i < n; i++ {
+			v += rapid.SampledFrom(Words).Draw(t, fmt.Sprintf("%s-tw%d", label, i)) + " "
+		}
+		o := &models.SearchTextOptions{Value: v, Operator: rapid.SampledFrom(arrayOps).Draw(t, label+"-top"), Limit: rapid.IntRange(1, 75).Draw(t, label+"-tl")}
+		if rapid.IntRange(0, 2).Draw(t, label+"-tw") == 0 {
+			w := rapid.SampledFrom([]float32{0, 1, -1, 0.5, 3}).Draw(t, label+"-twv")
+			o.Weight = &w
+		}
+		if len(FilterProps(m.Schema)) > 0 && rapid.IntRange(0, 2).Draw(t, label+"-tf") == 0 {
+			f := FilterTree(t, label+"-tff", m, pool, 1)
+			o.Filter = &f
+		}
+		return models.Query{Property: prop, Text: o}
+	case models.IndexTypeVectorFlat:
+		vec, limit, w, f := VecQueryParts(t, label, m, pool, prop, 75)
+		return models.Query{Property: prop, VectorFlat: &models.SearchVectorFlatOptions{Vector: vec, Operator: models.OperatorNear, Limit: limit, Weight: w, Filter: f}}
+	default:
+		vec, limit, w, f := VecQueryParts(t, label, m, pool, prop, 75)
+		ss := rapid.IntRange(max(25, limit), 75).Draw(t, label+"-ss")
+		return models.Query{Property: prop, VectorVamana: &models.SearchVectorVamanaOptions{Vector: vec, Operator: models.OperatorNear, Limit: limit, SearchSize: ss, Weight: w, Filter: f}}
+	}
+}
